@@ -49,6 +49,9 @@ def floorDiv (a b : Int) : R :=
 
 def mod (a b : Int) : R := if b = 0 then .zeroDiv else .int (goMod a b)
 
+/-- the property's remainder relation, as a decision procedure: `|r| < |b|` and `b ∣ a − r` -/
+def remOk (a b r : Int) : Bool := decide (r.natAbs < b.natAbs) && decide ((a - r) % b = 0)
+
 def cmp (a b : Int) : R := if a > b then .int 1 else if a = b then .int 0 else .int (-1)
 
 /-- the code before the repair, kept for the witnesses in Theorems/C10.lean -/
